@@ -950,6 +950,10 @@ def rval(o):
     return z3.RealVal("%d/%d" % (f.numerator, f.denominator))
 
 
+def _isnan(o):
+    return isinstance(o, float) and o != o
+
+
 class SymReal:
     __slots__ = ("t",)
 
@@ -975,17 +979,25 @@ class SymReal:
         raise Unsupported("SymReal.of(%s)" % type(o).__name__)
 
     def __add__(self, o):
+        if _isnan(o):
+            return o
         return SymReal(self.t + SymReal.of(o).t)
 
     __radd__ = __add__
 
     def __sub__(self, o):
+        if _isnan(o):
+            return o
         return SymReal(self.t - SymReal.of(o).t)
 
     def __rsub__(self, o):
+        if _isnan(o):
+            return o
         return SymReal(SymReal.of(o).t - self.t)
 
     def __mul__(self, o):
+        if _isnan(o):
+            return o
         return SymReal(self.t * SymReal.of(o).t)
 
     __rmul__ = __mul__
